@@ -121,4 +121,87 @@ theorem in_range_never_fails (s a : Str) (o c : Nat) (h : o ≤ s.length) :
 example : deleteData ['a', 'b', '𝒳', 'd', 'e'] 3 10 = some ['a', 'b', '𝒳'] ∧
     splitText ['a', '𝒳', 'c'] 2 = some (['a', '𝒳'], ['c']) ∧ substringData ['a', 'b'] 3 0 = none := by decide
 
+
+-- inverse laws, frame of failing and reading calls, length bookkeeping (added 2026-09-23)
+/-- what was inserted is what `substringData` reads back at the same offset -/
+theorem insert_then_substring (s a t : Str) (o : Nat) (h : insertData s o a = some t) :
+    substringData t o a.length = some a := by
+  unfold insertData at h
+  split at h
+  · cases h
+  · next hlt =>
+    simp only [Option.some.injEq] at h; subst h
+    obtain ⟨p, q, rfl, rfl⟩ : ∃ p q, s = p ++ q ∧ p.length = o :=
+      ⟨s.take o, s.drop o, (List.take_append_drop o s).symm, by simp [List.length_take]; omega⟩
+    simp [substringData]
+
+/-- `deleteData` of the inserted stretch undoes `insertData` (for every offset, argument and data) -/
+theorem insert_then_delete (s a t : Str) (o : Nat) (h : insertData s o a = some t) :
+    deleteData t o a.length = some s := by
+  unfold insertData at h
+  split at h
+  · cases h
+  · next hlt =>
+    simp only [Option.some.injEq] at h; subst h
+    obtain ⟨p, q, rfl, rfl⟩ : ∃ p q, s = p ++ q ∧ p.length = o :=
+      ⟨s.take o, s.drop o, (List.take_append_drop o s).symm, by simp [List.length_take]; omega⟩
+    have e1 : (p ++ a ++ q).take p.length = p := by rw [List.append_assoc]; exact List.take_left' rfl
+    have e2 : (p ++ a ++ q).drop (p.length + a.length) = q := by
+      rw [← List.length_append]; exact List.drop_left' rfl
+    have e3 : ¬ (p ++ a ++ q).length < p.length := by simp
+    simp only [List.take_left', List.drop_left', deleteData, if_neg e3, e1, e2]
+
+/-- re-inserting what `substringData` read before a `deleteData` with the same arguments restores the
+    data - also when the count was clipped -/
+theorem delete_then_insert (s m t : Str) (o c : Nat) (hm : substringData s o c = some m)
+    (h : deleteData s o c = some t) : insertData t o m = some s := by
+  unfold deleteData at h; unfold substringData at hm
+  split at h
+  · cases h
+  · next hlt =>
+    rw [if_neg hlt] at hm
+    simp only [Option.some.injEq] at h hm; subst h; subst hm
+    obtain ⟨p, q, rfl, rfl⟩ : ∃ p q, s = p ++ q ∧ p.length = o :=
+      ⟨s.take o, s.drop o, (List.take_append_drop o s).symm, by simp [List.length_take]; omega⟩
+    simp [insertData, List.drop_append]
+    rw [List.drop_of_length_le (by omega)]; simp
+
+/-- a failing operation leaves the data as it was, whatever the operation -/
+theorem failed_step_keeps_data (s : Str) (op : Op) (h : (step s op).2 = .indexSize) :
+    (step s op).1 = s := by
+  cases op <;> simp only [step] at h ⊢ <;> (try cases h) <;> split <;> simp_all
+
+/-- the two reading operations never change the data -/
+theorem reads_keep_data (s : Str) (o c : Nat) : (step s .len).1 = s ∧ (step s (.sub o c)).1 = s := by
+  simp [step]
+
+/-- reading everything gives the data -/
+theorem substring_whole (s : Str) : substringData s 0 s.length = some s := by
+  simp [substringData]
+
+/-- length bookkeeping over a whole history: the data after any sequence of operations is determined
+    by folding `step`, and its length after a successful insert/append grows by exactly the argument's
+    length (no unit other than the character is involved) -/
+theorem step_length (s : Str) (op : Op) :
+    ((step s op).1).length =
+      match op with
+      | .len | .sub _ _ => s.length
+      | .app a => s.length + a.length
+      | .set a => a.length
+      | .ins o a => if s.length < o then s.length else s.length + a.length
+      | .del o c => if s.length < o then s.length else s.length - min c (s.length - o)
+      | .rep o c a => if s.length < o then s.length else s.length - min c (s.length - o) + a.length
+      | .split o => if s.length < o then s.length else o := by
+  cases op with
+  | len => rfl
+  | sub o c => rfl
+  | app a => simp [step, appendData]
+  | set a => rfl
+  | ins o a => by_cases hl : s.length < o <;> simp [step, insertData, hl]; omega
+  | del o c => by_cases hl : s.length < o <;> simp [step, deleteData, hl]; omega
+  | rep o c a => by_cases hl : s.length < o <;> simp [step, replaceData, hl]; omega
+  | split o => by_cases hl : s.length < o <;> simp [step, splitText, hl]; omega
+
+example : insertData ['a', '𝒳'] 1 ['é'] = some ['a', 'é', '𝒳'] ∧
+    deleteData ['a', 'é', '𝒳'] 1 1 = some ['a', '𝒳'] := by decide
 end XmlRs.C16
